@@ -20,13 +20,35 @@ import (
 
 type c14Case struct {
 	Scan  scanCase
-	End   string // exhaust close-after cancel-between cancel-during rpc-error rpc-retryable early-no-more
+	End   string // exhaust close-after cancel-between cancel-during rpc-error rpc-retryable early-no-more response-lost
 	J     int    // Next calls before the ending event
 	R     int    // which scan request is hit (1-based)
 	Renew bool
 	// Pause: the caller waits this long between Next calls (longer than the
 	// renew interval, so that renewals happen wherever the scan is positioned)
 	Pause time.Duration
+}
+
+// expiringCtx is a context that reaches its deadline when fire() is called:
+// Err() is context.DeadlineExceeded (a cancellation reads context.Canceled).
+type expiringCtx struct {
+	context.Context
+	done chan struct{}
+	once sync.Once
+}
+
+func newExpiringCtx() *expiringCtx {
+	return &expiringCtx{Context: context.Background(), done: make(chan struct{})}
+}
+func (e *expiringCtx) fire()                 { e.once.Do(func() { close(e.done) }) }
+func (e *expiringCtx) Done() <-chan struct{} { return e.done }
+func (e *expiringCtx) Err() error {
+	select {
+	case <-e.done:
+		return context.DeadlineExceeded
+	default:
+		return nil
+	}
 }
 
 type nextRec struct {
@@ -71,12 +93,12 @@ func runC14(c *fw.Ctx) {
 	// (scan request hit)
 	{
 		k := 0
-		for _, end := range []string{"exhaust", "close-after", "cancel-between", "cancel-during", "rpc-error", "rpc-retryable", "early-no-more"} {
+		for _, end := range []string{"exhaust", "close-after", "cancel-between", "cancel-during", "rpc-error", "rpc-retryable", "early-no-more", "response-lost"} {
 			for _, rev := range []bool{false, true} {
 				for j := 0; j <= 5; j++ {
 					for rr := 1; rr <= 6; rr++ {
 						if (end == "exhaust" && (j > 0 || rr > 1)) || ((end == "close-after" || end == "cancel-between") && rr > 1) ||
-							((end == "cancel-during" || end == "rpc-error" || end == "rpc-retryable" || end == "early-no-more") && j > 0) {
+							((end == "cancel-during" || end == "rpc-error" || end == "rpc-retryable" || end == "early-no-more" || end == "response-lost") && j > 0) {
 							continue
 						}
 						k++
@@ -110,7 +132,7 @@ func runC14(c *fw.Ctx) {
 	}
 	r := c.Rand("c14")
 	n := c.Pick(800, 24000) / c.NBatches
-	ends := []string{"exhaust", "close-after", "close-after", "cancel-between", "cancel-between", "cancel-during", "rpc-error", "rpc-error", "rpc-retryable", "early-no-more"}
+	ends := []string{"exhaust", "close-after", "close-after", "cancel-between", "cancel-between", "cancel-during", "rpc-error", "rpc-error", "rpc-retryable", "early-no-more", "response-lost", "response-lost"}
 	for i := 0; i < n; i++ {
 		cs := c14Case{Scan: genScanCase(r), End: ends[r.Intn(len(ends))]}
 		model := cs.Scan.model()
@@ -151,7 +173,7 @@ func c14Run(c *fw.Ctx, id string, cs c14Case, model []modelRow, opid string) {
 	cl, client := cs.Scan.setup(policy)
 	defer cl.Close()
 	defer release()
-	var faulted, heldOpen int32
+	var faulted, heldOpen, lostOpen int32
 	cl.OnRequest = func(req *sim.Request) *sim.Reply {
 		if req.Scan == nil || cl.ScanOpID(req) != opid || req.Scan.GetCloseScanner() && req.Scan.ScannerId != nil || req.Scan.GetRenew() {
 			return nil
@@ -167,6 +189,14 @@ func c14Run(c *fw.Ctx, id string, cs c14Case, model []modelRow, opid string) {
 		case "rpc-retryable":
 			atomic.StoreInt32(&faulted, 1)
 			return &sim.Reply{Exc: &sim.Exc{Class: sim.ExcTooBusy}}
+		case "response-lost":
+			// the server processes the request (its scanner advances), then the
+			// connection dies before the response is written
+			atomic.StoreInt32(&faulted, 1)
+			if req.Scan.ScannerId == nil {
+				atomic.StoreInt32(&lostOpen, 1)
+			}
+			return &sim.Reply{DefaultThenKill: true}
 		}
 		return nil
 	}
@@ -179,6 +209,12 @@ func c14Run(c *fw.Ctx, id string, cs c14Case, model []modelRow, opid string) {
 	}
 	_ = respN
 	ctx, cancel := context.WithCancel(context.Background())
+	if cs.Scan.Seed%2 == 1 {
+		// the context ends by deadline instead of by cancellation
+		ectx := newExpiringCtx()
+		ctx, cancel = ectx, ectx.fire
+		c.Count("contexts_ending_by_deadline", 1)
+	}
 	defer cancel()
 	if cs.End == "cancel-during" {
 		inner := cl.OnRequest
@@ -241,7 +277,7 @@ func c14Run(c *fw.Ctx, id string, cs c14Case, model []modelRow, opid string) {
 	}
 	ended := false
 	switch cs.End {
-	case "exhaust", "rpc-error", "rpc-retryable", "early-no-more":
+	case "exhaust", "rpc-error", "rpc-retryable", "early-no-more", "response-lost":
 		for k := 0; k < len(model)*8+20 && !ended; k++ {
 			ended = next()
 		}
@@ -344,12 +380,16 @@ func c14Run(c *fw.Ctx, id string, cs c14Case, model []modelRow, opid string) {
 		}
 	}
 	// rows: prefix of (or equal to) the model
-	full := (cs.End == "exhaust" || cs.End == "rpc-retryable") || (atomic.LoadInt32(&faulted) == 0 && cs.End != "close-after" && cs.End != "cancel-between" && cs.End != "cancel-during")
+	// (a lost response may end the scan with an error; if it does not, nothing may be missing)
+	full := (cs.End == "exhaust" || cs.End == "rpc-retryable") || (cs.End == "response-lost" && errs == 0) || (atomic.LoadInt32(&faulted) == 0 && cs.End != "close-after" && cs.End != "cancel-between" && cs.End != "cancel-during")
 	if cs.End == "cancel-between" && cs.J > len(got) {
 		full = errs == 0
 	}
 	// an error or a Close by the caller may leave the last row incomplete
-	if f, d := compareScan(got, model, cs.Scan.Partials, !full, cs.Scan.Partials || errs > 0 || cs.End == "close-after"); f != "" {
+	if cs.End == "response-lost" && atomic.LoadInt32(&faulted) == 1 {
+		// what a scan returns after a lost response is C06's subject; here only
+		// termination and the release of server-side scanners are judged
+	} else if f, d := compareScan(got, model, cs.Scan.Partials, !full, cs.Scan.Partials || errs > 0 || cs.End == "close-after"); f != "" {
 		c.Violate(id, f, d+" :: "+cs.End+" "+cs.Scan.sig(), cs)
 	}
 	// an error comes together with the row assembled so far: when the r-th request
@@ -431,6 +471,10 @@ func c14Run(c *fw.Ctx, id string, cs c14Case, model []modelRow, opid string) {
 		f := "scanner:leaked-server-scanner"
 		if cs.End == "cancel-during" && atomic.LoadInt32(&heldOpen) == 1 && len(left) == 1 {
 			f = "scanner:leaked-server-scanner:cancelled-while-open-request-unanswered"
+		}
+		if cs.End == "response-lost" && atomic.LoadInt32(&lostOpen) == 1 && len(left) == 1 {
+			// the lost response was the one carrying the id of a freshly opened scanner
+			f = "scanner:leaked-server-scanner:response-to-open-request-lost"
 		}
 		c.Violate(id, f, fmt.Sprintf("%d region scanner(s) %v still open on the servers 3s after the scan ended (%s j=%d r=%d): %s",
 			len(left), left, cs.End, cs.J, cs.R, cs.Scan.sig()), cs)
